@@ -24,13 +24,22 @@ static void c_reduce(long c) { int form = c % 2; c /= 2; int part = c % 4; c /= 
     else { ImpBody::live = ImpBody::made = 0; { ImpBody b; with_part(part, [&](auto& p) { tbb::parallel_reduce(range, b, p); }); check_seq(b.v, n, "parallel_reduce (body form)"); } if (ImpBody::live != 0) vf_fail("parallel_reduce: %d split bodies not destroyed", ImpBody::live); }
     vtbb::finish(); vf_outcome("reduce form=%d part=%d P=%d n=%d g=%d steals=%ld bodies=%d", form, part, P, n, g, vtbb::stats().steals, ImpBody::made); }
 static std::map<long, std::string>* canon;
-static void c_det(long c) { long key = c; int part = c % 2; c /= 2; int g = 1 + c % GMAX; c /= GMAX; int n = (int)c; std::string term[4]; const char* pn = part ? "static_partitioner" : "simple_partitioner";
+// every overload of parallel_deterministic_reduce: functional / Body form x partitioner argument (none, simple, static) x with / without a context
+struct DetBody { std::string v; DetBody() {} DetBody(DetBody&, tbb::split) {} void operator()(const tbb::blocked_range<int>& rg) { vtbb::nested(); vtbb::interleave(); v = v + "[" + std::to_string(rg.begin()) + "," + std::to_string(rg.end()) + ")"; } void join(DetBody& r) { v = "(" + v + "+" + r.v + ")"; } };
+static void c_det(long c) { long key = c; int part = c % 2; c /= 2; int ovl = c % 6; c /= 6; int g = 1 + c % GMAX; c /= GMAX; int n = (int)c;   /* ovl: bit0 Body form, bit1 explicit context; ovl>=4: no partitioner argument (bit0 Body form, part = with context) */ std::string term[4]; const char* pn = part ? "static_partitioner" : "simple_partitioner";
     for (int P = 1; P <= 3; P++) { vtbb::init(P); tbb::blocked_range<int> range(0, n, g); auto body = [](const tbb::blocked_range<int>& rg, std::string v) { vtbb::nested(); vtbb::interleave(); return v + "[" + std::to_string(rg.begin()) + "," + std::to_string(rg.end()) + ")"; }; auto join = [](const std::string& a, const std::string& b) { return "(" + a + "+" + b + ")"; };
-        if (part == 0) term[P] = tbb::parallel_deterministic_reduce(range, std::string(), body, join, tbb::simple_partitioner()); else term[P] = tbb::parallel_deterministic_reduce(range, std::string(), body, join, tbb::static_partitioner());
+        bool bodyform = ovl & 1, ctx = (ovl >> 1) & 1, nopart = ovl >= 4; if (nopart) { bodyform = ovl & 1; ctx = part; } tbb::task_group_context tgc;
+        if (!bodyform) { if (nopart) term[P] = ctx ? tbb::parallel_deterministic_reduce(range, std::string(), body, join, tgc) : tbb::parallel_deterministic_reduce(range, std::string(), body, join);
+            else if (part == 0) term[P] = ctx ? tbb::parallel_deterministic_reduce(range, std::string(), body, join, tbb::simple_partitioner(), tgc) : tbb::parallel_deterministic_reduce(range, std::string(), body, join, tbb::simple_partitioner());
+            else term[P] = ctx ? tbb::parallel_deterministic_reduce(range, std::string(), body, join, tbb::static_partitioner(), tgc) : tbb::parallel_deterministic_reduce(range, std::string(), body, join, tbb::static_partitioner()); }
+        else { DetBody b; if (nopart) { if (ctx) tbb::parallel_deterministic_reduce(range, b, tgc); else tbb::parallel_deterministic_reduce(range, b); }
+            else if (part == 0) { if (ctx) tbb::parallel_deterministic_reduce(range, b, tbb::simple_partitioner(), tgc); else tbb::parallel_deterministic_reduce(range, b, tbb::simple_partitioner()); }
+            else { if (ctx) tbb::parallel_deterministic_reduce(range, b, tbb::static_partitioner(), tgc); else tbb::parallel_deterministic_reduce(range, b, tbb::static_partitioner()); } term[P] = b.v; }
+        if (nopart) pn = "default partitioner";
         vtbb::finish();
         // schedule independence for this (range, grain, P): every execution of this case must produce the same tree
         long k2 = key * 4 + P; auto it = canon->find(k2); if (it == canon->end()) (*canon)[k2] = term[P]; else if (it->second != term[P]) vf_fail("parallel_deterministic_reduce (%s) n=%d g=%d P=%d: the split/join tree depends on the schedule: %s vs %s", pn, n, g, P, it->second.c_str(), term[P].c_str()); }
-    for (int P = 2; P <= 3; P++) if (term[P] != term[1]) { if (part == 0) vf_fail("parallel_deterministic_reduce (simple_partitioner) n=%d g=%d: the split/join tree differs between 1 and %d threads: %s vs %s", n, g, P, term[1].c_str(), term[P].c_str());
+    for (int P = 2; P <= 3; P++) if (term[P] != term[1]) { if (part == 0 || ovl >= 4) vf_fail("parallel_deterministic_reduce (simple_partitioner) n=%d g=%d: the split/join tree differs between 1 and %d threads: %s vs %s", n, g, P, term[1].c_str(), term[P].c_str());
         vf_fail("parallel_deterministic_reduce with static_partitioner: the split/join tree depends on the number of threads (n=%d g=%d: %s with 1 thread, %s with %d)", n, g, term[1].c_str(), term[P].c_str(), P); }
     vf_outcome("det part=%d n=%d g=%d term=%s", part, n, g, term[1].c_str()); }
 struct ScanBody { List sum; std::vector<int>* finals; std::vector<List>* prefixes; ScanBody(std::vector<int>* f, std::vector<List>* p) : finals(f), prefixes(p) {} ScanBody(ScanBody& b, tbb::split) : finals(b.finals), prefixes(b.prefixes) {}
@@ -46,4 +55,4 @@ static void c_scan(long c) { int form = c % 2; c /= 2; int part = c % 2; c /= 2;
     vf_outcome("scan form=%d part=%d P=%d n=%d g=%d steals=%ld", form, part, P, n, g, vtbb::stats().steals); }
 static long N1, N2, N3;
 static void scenario(long c) { if (c < N1) c_reduce(c); else if (c < N1 + N2) c_det(c - N1); else c_scan(c - N1 - N2); }
-int main(int argc, char** argv) { canon = new std::map<long, std::string>(); N1 = 2L * 4 * 3 * GMAX * (NMAX + 1); N2 = 2L * GMAX * (NMAX + 4); N3 = 2L * 2 * 3 * GMAX * (NMAX + 1); return vf_main_cases(argc, argv, N1 + N2 + N3, scenario); }
+int main(int argc, char** argv) { canon = new std::map<long, std::string>(); N1 = 2L * 4 * 3 * GMAX * (NMAX + 1); N2 = 2L * 6 * GMAX * (NMAX + 4); N3 = 2L * 2 * 3 * GMAX * (NMAX + 1); return vf_main_cases(argc, argv, N1 + N2 + N3, scenario); }
